@@ -268,7 +268,7 @@ func tryVariants(o *Obligation, full string, dir string, timeoutMs int, tried *[
 	genMu.Lock()
 	splits := ObligationScriptsSplit(o)
 	var sliced []string
-	for _, h := range []int{sliceLoop, 1, 2} {
+	for _, h := range []int{sliceLoop, 1} {
 		if sc := ObligationScriptSliced(o, h); sc != "" && sc != full {
 			sliced = append(sliced, sc)
 		}
@@ -413,6 +413,11 @@ func solveAllSkipping(obls []*Obligation, scripts []string, valueNames [][]strin
 		if r == nil || obls[i].Cover || r.R.Status == "unsat" || r.R.Status == "sat" || r.R.Status == "not-run" {
 			continue
 		}
+		// a retry only makes sense when some solver ran out of time; when every member gave up by itself ("unknown"
+		// before the cap) more time changes nothing
+		if !strings.Contains(strings.Join(r.R.Tried, " "), ":timeout:") {
+			continue
+		}
 		wg.Add(1)
 		sem2 <- struct{}{}
 		go func() {
@@ -420,13 +425,13 @@ func solveAllSkipping(obls []*Obligation, scripts []string, valueNames [][]strin
 			defer func() { <-sem2 }()
 			var tried []string
 			var ms int64
-			if rv := tryVariants(obls[i], scripts[i], dir, 2*timeoutMs, &tried, &ms); rv != nil {
+			if rv := tryVariants(obls[i], scripts[i], dir, timeoutMs, &tried, &ms); rv != nil {
 				rv.Ms = r.R.Ms + ms
 				rv.Tried = append(r.R.Tried, tried...)
 				results[i] = &oblResult{O: obls[i], R: rv}
 				return
 			}
-			r2 := Solve(scripts[i], dir, obls[i].Name+".retry", 3*timeoutMs, thorough, valueNames[i], false)
+			r2 := Solve(scripts[i], dir, obls[i].Name+".retry", 2*timeoutMs, thorough, valueNames[i], false)
 			r2.Ms += r.R.Ms + ms
 			r2.Tried = append(append(r.R.Tried, tried...), r2.Tried...)
 			results[i] = &oblResult{O: obls[i], R: r2}
